@@ -156,6 +156,10 @@ theorem fetchChunk_of (st : NodeState) (id rk : Bytes) (record : Record) (sr : S
   simp only [hrec, henc, hsr, if_true, hthr, hlen, ge_iff_le, gt_iff_lt, and_self, hcomb, pick_fetchId, pick_fetchData,
     pick_fetchNonce]
 
+theorem onCombineFailure_not_accepted (role : String) : (onCombineFailure role).isAccepted = false := by
+  unfold onCombineFailure
+  split <;> rfl
+
 /-! ### receive_chunk: exactly when it accepts -/
 
 /-- the acceptance condition of `receive_chunk`, as a proposition about the decoded manifest and the replica -/
@@ -180,7 +184,7 @@ theorem receive_cases (cfg : Config) (st : NodeState) (wallNowNs : Int) (decoded
     ((receiveChunk cfg st wallNowNs decoded ct rk).1 = st ∧
       (receiveChunk cfg st wallNowNs decoded ct rk).2.isAccepted = false) := by
   cases decoded with
-  | none => right; constructor <;> first | rfl | trivial
+  | none => right; constructor <;> first | rfl | trivial | exact onCombineFailure_not_accepted _
   | some m =>
     by_cases hv : m.threshold > 0 ∧ m.shards.length ≥ m.threshold
     · cases httl : manifestTtl m.expiresNs wallNowNs cfg.minTtl cfg.maxTtl with
@@ -188,26 +192,26 @@ theorem receive_cases (cfg : Config) (st : NodeState) (wallNowNs : Int) (decoded
         right
         unfold receiveChunk
         simp only [hv, and_self, not_true_eq_false, if_false, httl]
-        constructor <;> first | rfl | trivial
+        constructor <;> first | rfl | trivial | exact onCombineFailure_not_accepted _
       | some ttl =>
         cases hc : Shamir.combine m.shards m.threshold with
         | invalidArgument =>
           right
           unfold receiveChunk
           simp only [hv, and_self, not_true_eq_false, if_false, httl, receive_threshold, hc]
-          constructor <;> first | rfl | trivial
+          constructor <;> first | rfl | trivial | exact onCombineFailure_not_accepted _
         | hang =>
           right
           unfold receiveChunk
           simp only [hv, and_self, not_true_eq_false, if_false, httl, receive_threshold, hc]
-          constructor <;> first | rfl | trivial
+          constructor <;> first | rfl | trivial | exact onCombineFailure_not_accepted _
         | ok keyN =>
           cases hd : ChaCha20.decrypt_with_key (ofNats keyN) m.chunkId ct m.nonce rk with
           | none =>
             right
             unfold receiveChunk
             simp only [hv, and_self, not_true_eq_false, if_false, httl, receive_threshold, hc, receive_id, receive_nonce, hd]
-            constructor <;> first | rfl | trivial
+            constructor <;> first | rfl | trivial | exact onCombineFailure_not_accepted _
           | some pt =>
             by_cases hh : Model.Sha256.digest pt = m.chunkHash
             · left
@@ -219,11 +223,11 @@ theorem receive_cases (cfg : Config) (st : NodeState) (wallNowNs : Int) (decoded
               unfold receiveChunk
               simp only [hv, and_self, not_true_eq_false, if_false, httl, receive_threshold, hc, receive_id,
                 receive_nonce, hd, pick_receiveHash, receive_compare, hb, Bool.false_eq_true]
-              constructor <;> first | rfl | trivial
+              constructor <;> first | rfl | trivial | exact onCombineFailure_not_accepted _
     · right
       unfold receiveChunk
       simp only [hv, not_false_eq_true, if_true]
-      constructor <;> first | rfl | trivial
+      constructor <;> first | rfl | trivial | exact onCombineFailure_not_accepted _
 
 /-! ### the CLI function: the same condition without the TTL test -/
 
@@ -254,7 +258,7 @@ theorem cli_cases (m : Manifest) (data rk : Bytes) :
       right
       unfold decryptChunkWithManifest
       simp only [hg, if_false, cli_threshold, hc]
-      rfl
+      exact onCombineFailure_not_accepted _
     | hang =>
       right
       unfold decryptChunkWithManifest
